@@ -47,6 +47,7 @@ type Config struct {
 	Steps         int
 	StartAboveMax bool
 	InitialUtxos  int
+	MaxOffered    int
 	StartHeight   int32
 }
 
@@ -164,6 +165,15 @@ type World struct {
 	fwd  sync.WaitGroup
 
 	estCalls int
+
+	deferred *pendingViolation
+}
+
+// raiseDeferred reports the signature-carrying violation recorded earlier.
+func (w *World) raiseDeferred() {
+	if v := w.deferred; v != nil {
+		w.r.FailSig(v.code, v.sig, "%s", v.msg)
+	}
 }
 
 func newWorld(r *simcore.Run, cfg Config) *World {
@@ -255,7 +265,7 @@ func (w *World) flush() {
 		return a.seq < b.seq
 	})
 	for _, e := range evs {
-		w.r.Logf("  %s", e.text)
+		dlog(w.r, "  %s", e.text)
 	}
 	if he != "" {
 		w.r.Harness("%s", he)
@@ -271,10 +281,21 @@ func (w *World) flush() {
 			}
 			return a.seq < b.seq
 		})
-		if vs[0].sig != "" {
-			w.r.FailSig(vs[0].code, vs[0].sig, "%s", vs[0].msg)
+		// Classes that carry a structural signature (the ones that can be
+		// matched against known findings) do not cut the run short: the
+		// first one is kept and raised when the run ends, so that the rest
+		// of the run is still judged by every other oracle. Anything else
+		// aborts the run at once.
+		for _, v := range vs {
+			if v.sig == "" {
+				w.r.Fail(v.code, "%s", v.msg)
+			}
 		}
-		w.r.Fail(vs[0].code, "%s", vs[0].msg)
+		if w.deferred == nil {
+			v := vs[0]
+			w.deferred = &v
+			dlog(w.r, "  (violation %s/%s recorded, raised at the end of the run)", v.code, v.sig)
+		}
 	}
 }
 
@@ -427,6 +448,11 @@ func (w *World) markSpentLocked(tx *wire.MsgTx) {
 		if _, ok := w.spent[op]; ok {
 			continue
 		}
+		if _, isWallet := w.utxoByOp[op]; isWallet {
+			// Wallet UTXOs are modelled as per-request private coins (see
+			// the note on wallet.ListUnspentWitnessFromDefaultAccount).
+			continue
+		}
 		d := &chainntnfs.SpendDetail{
 			SpentOutPoint: &op, SpenderTxHash: &h, SpendingTx: tx,
 			SpenderInputIndex: uint32(i), SpendingHeight: w.height,
@@ -479,6 +505,13 @@ func (wl wallet) FetchTx(h chainhash.Hash) (*wire.MsgTx, error) {
 	return wl.w.known[h], nil
 }
 
+// ListUnspentWitnessFromDefaultAccount always offers the whole simulated
+// wallet. lnd does not lease the coins it attaches to a sweep (a TODO in
+// fee_bumper.go), so two concurrent sweeps may pick the same coin, and which
+// one wins then depends on lnd's map iteration order. To keep runs
+// order-independent the simulated chain treats wallet coins as private to each
+// request: they never conflict in the mempool model and are never consumed.
+// (Wallet-coin contention is not part of C18.)
 func (wl wallet) ListUnspentWitnessFromDefaultAccount(minConfs, maxConfs int32) ([]*lnwallet.Utxo, error) {
 	w := wl.w
 	w.mu.Lock()
@@ -576,7 +609,7 @@ func (w *World) policy(tx *wire.MsgTx, info *txInfo) error {
 			return nil // already in the pool
 		}
 		for _, ti := range p.tx.TxIn {
-			if info.spends(ti.PreviousOutPoint) {
+			if _, offered := w.byOp[ti.PreviousOutPoint]; offered && info.spends(ti.PreviousOutPoint) {
 				conflict = true
 				conflictFee += p.fee
 				break
@@ -647,7 +680,7 @@ func (wl wallet) PublishTransaction(tx *wire.MsgTx, _ string) error {
 		p := &poolTx{tx: cp, hash: h, fee: info.fee, req: q}
 		for ph, old := range w.mempool {
 			for _, ti := range old.tx.TxIn {
-				if info.spends(ti.PreviousOutPoint) {
+				if _, offered := w.byOp[ti.PreviousOutPoint]; offered && info.spends(ti.PreviousOutPoint) {
 					delete(w.mempool, ph)
 					break
 				}
